@@ -163,7 +163,7 @@ CHECKS = {'C01': {'level': 'exploration',
                          'a fresh Union(missing, ...) is not generated (the text does not define it); WithValue is not applied to index names; '
                          'float->uint filter conversions are not generated'],
          'tests': [{'run': '^TestC04$',
-                    'checks': {'quick': 250, 'thorough': 2500},
+                    'checks': {'quick': 400, 'thorough': 2500},
                     'shards': {'quick': 1, 'thorough': 16},
                     'timeout': {'quick': 900, 'thorough': 3400},
                     'env': {'GOMAXPROCS': 1}}]},
